@@ -1723,8 +1723,10 @@ async fn run_compound(ctx: &StateCtx<'_>, t: &Tamper, k: usize, idx: usize, st: 
             seen.push(format!("{name}{}: {} / then get: {}", if refetched { " (re-resolved)" } else { "" }, word(&first), word(&second)));
         }
     }
-    // one transplant and one legacy-looking stripped transplant of two states
-    if ctx.case % 36 == 0 && k == 0 && (idx == 0 || (idx == 4 && expect == Expect::Undecidable)) {
+    // one transplant of every third state and one legacy-looking stripped transplant of every sixth
+    // (which of them end up in the evidence depends on the sample caps)
+    let legacy_looking_transplant = expect == Expect::Undecidable && t.what.contains("current document of") && t.what.contains("fields [\"an\", \"at\", \"av\", \"g\"] removed");
+    if k == 0 && ctx.case % 3 == 0 && (idx == 0 || (ctx.case % 6 == 0 && legacy_looking_transplant)) {
         let (what, strict) = (t.what.clone(), ctx.strict);
         st.sample(move || json!({"monitor": "warm_retry", "class": class, "tamper": what, "strict": strict, "first_read / second_read outcomes": seen}));
     }
@@ -1813,30 +1815,9 @@ async fn tamper_case_async(case: u64, rng: &mut Rng, st: &mut Stats, chunks: &[u
         }
     }
 
-    let mut tampers = vec![];
-    enumerate_tampers(&s, rng, &mut tampers);
     let mut complete = true;
-    for (i, t) in tampers.iter().enumerate() {
-        if !run_tamper(&ctx, t, i, false, st).await {
-            complete = false;
-            break; // one report per state
-        }
-        // payload tampers also against a warm instance (cached metadata, stale-pointer retry)
-        if !t.edits.iter().any(|(p, _)| p.starts_with("meta/")) && !run_tamper(&ctx, t, i, true, st).await {
-            complete = false;
-            break;
-        }
-        // the downgrade-related classes are judged under both authentication modes
-        if t.class.starts_with("strip_") || t.class == "repoint_generation" {
-            let other = StateCtx { case, s: &s, strict: !strict };
-            if !run_tamper(&other, t, i + 1, false, st).await {
-                complete = false;
-                break;
-            }
-        }
-    }
     // compound tampers that drive the stale-pointer retry of a warm instance
-    if complete {
+    {
         'compound: for k in 0..2 {
             let mut compounds = vec![];
             enumerate_compound(&s, k, &mut compounds);
@@ -1853,6 +1834,30 @@ async fn tamper_case_async(case: u64, rng: &mut Rng, st: &mut Stats, chunks: &[u
                         break 'compound;
                     }
                 }
+            }
+        }
+    }
+    let mut tampers = vec![];
+    enumerate_tampers(&s, rng, &mut tampers);
+    for (i, t) in tampers.iter().enumerate() {
+        if !complete {
+            break; // one report per state
+        }
+        if !run_tamper(&ctx, t, i, false, st).await {
+            complete = false;
+            break; // one report per state
+        }
+        // payload tampers also against a warm instance (cached metadata, stale-pointer retry)
+        if !t.edits.iter().any(|(p, _)| p.starts_with("meta/")) && !run_tamper(&ctx, t, i, true, st).await {
+            complete = false;
+            break;
+        }
+        // the downgrade-related classes are judged under both authentication modes
+        if t.class.starts_with("strip_") || t.class == "repoint_generation" {
+            let other = StateCtx { case, s: &s, strict: !strict };
+            if !run_tamper(&other, t, i + 1, false, st).await {
+                complete = false;
+                break;
             }
         }
     }
